@@ -211,7 +211,7 @@ PROPS = {
                    "members no longer found; survivors keep their relative order and new members follow them; the same after a final reopen",
         level_note="tag references and attached sources are looked up by id only (their getters are documented as id lookups); the order of a "
                    "list that was replaced as a whole by a vector setter is not compared for that one step",
-        quick=dict(cases=120, size=400, workers=16, timeout=1800),
+        quick=dict(cases=100, size=400, workers=16, timeout=1800),
         thorough=dict(cases=5000, size=400, workers=16, timeout=14400),
         rule="tape -> program (harness/prog.hpp, profile Valid). Non-trivial: at least 3 successful creates, at least one successful delete/"
              "remove, and a member with a special name ('..', UUID-shaped, case/blank variant, UTF-8, '%', '.') was looked up. Distinct = hash of "
@@ -307,9 +307,9 @@ PROPS = {
         level_note="only crash- / leak- artifacts count, oom- / timeout- / slow-unit- are load noise and listed; libFuzzer runs are only "
                    "approximately reproducible from the seed, the saved input (converted to a tape and replayed 3x) is the reproducible unit; "
                    "sizes are small or absurd so that memory pressure is never the signal; -DNDEBUG as shipped",
-        quick=dict(cases=150, size=500, workers=16, timeout=2400),
+        quick=dict(cases=120, size=500, workers=16, timeout=2400),
         thorough=dict(cases=6000, size=500, workers=16, timeout=14400),
-        fuzz=dict(bin="fz_api", max_len=4096, quick=dict(procs=8, runs=2500), thorough=dict(procs=16, runs=150000)),
+        fuzz=dict(bin="fz_api", max_len=4096, quick=dict(procs=8, runs=2000), thorough=dict(procs=16, runs=150000)),
         rule="tape -> program. Non-trivial (counted on the rapidcheck side, libFuzzer executions are counted in evaluations and by its "
              "coverage counters): at least one out-of-contract data / retrieval / frame call reached the backend and at least one call "
              "threw. Distinct = hash of the decoded program.",
@@ -325,7 +325,7 @@ PROPS = {
                    "the whole file (and of the foreign file) must equal the snapshot taken before the call",
         level_note="one step of a program is exactly one mutating API call; a call that does not throw is outside this property; the snapshot "
                    "reads everything through public getters (updated_at excluded)",
-        quick=dict(cases=300, size=400, workers=16, timeout=1800),
+        quick=dict(cases=200, size=400, workers=16, timeout=1800),
         thorough=dict(cases=8000, size=400, workers=16, timeout=14400),
         rule="tape -> program (see harness/prog.hpp, profile Reject). Non-trivial: at least one call was rejected in a state with at least 4 "
              "entities. The evidence lists per rejection class how many rejected calls were checked. Distinct = hash of the decoded program.",
@@ -339,7 +339,7 @@ PROPS = {
                    "at the end the snapshot taken before close() must equal the snapshot after a ReadOnly reopen, after a ReadWrite reopen and "
                    "(40% of the cases) the snapshot printed by a freshly started process",
         level_note="snapshot = every getter of every entity incl. all stored data, ids, created_at, links and order; updated_at excluded",
-        quick=dict(cases=250, size=400, workers=16, timeout=1800),
+        quick=dict(cases=200, size=400, workers=16, timeout=1800),
         thorough=dict(cases=8000, size=400, workers=16, timeout=14400),
         rule="tape -> program (profile Valid). Non-trivial: at least one successful delete/unlink, entities of at least 4 kinds besides the file, "
              "and at least one link alive at the final close. Distinct = hash of the decoded program.",
@@ -353,7 +353,7 @@ PROPS = {
                    "delete the new snapshot must equal the old one with the victim (and its subtree) removed and every link to a removed id "
                    "gone - nothing else may differ - and the handle held from before reports itself invalid",
         level_note="prune is a pure function on the snapshot tree; deleteDimensions has no victim id and is covered by C13",
-        quick=dict(cases=300, size=400, workers=16, timeout=1800),
+        quick=dict(cases=150, size=400, workers=16, timeout=1800),
         thorough=dict(cases=8000, size=400, workers=16, timeout=14400),
         rule="tape -> program (profile Valid). Non-trivial: a victim that was referenced by holders of at least 2 different kinds, or whose "
              "subtree holds at least 3 entities. Distinct = hash of the decoded program.",
